@@ -54,6 +54,11 @@ struct World {
     msgs: Vec<Msg>,
     next_id: u64,
     sent_now: Vec<u64>,
+    /// answer the network-wide read a node falls back to after a failed direct fetch (with the copy of the
+    /// lowest-numbered other node that holds the record)
+    netserve: bool,
+    settling: bool,
+    netreads: Vec<Value>,
 }
 
 fn node_of(w: &World, p: &PeerId) -> usize { w.nodes.iter().position(|n| &n.peer == p).map(|i| i + 1).unwrap_or(0) }
@@ -178,8 +183,26 @@ async fn collect(w: &mut World) {
                             _ => {}
                         }
                     }
-                    // the fall-back read from the network after a failed direct fetch: nobody answers
-                    NetworkSwarmCmd::GetNetworkRecord { sender, .. } => drop(sender),
+                    // the fall-back read from the network at large after a failed direct fetch: answered with the copy of
+                    // the lowest-numbered other holder when the scenario says so, otherwise nobody answers
+                    NetworkSwarmCmd::GetNetworkRecord { key, sender, .. } => {
+                        let a = addr_of(w, &key);
+                        let mut found: Option<(usize, Record)> = None;
+                        if w.netserve && !w.settling && a != 0 {
+                            for j in 0..w.nodes.len() {
+                                if j == i { continue; }
+                                if let Some(rec) = w.nodes[j].stored(&key) { found = Some((j, rec)); break; }
+                            }
+                        }
+                        match found {
+                            Some((j, rec)) => {
+                                let c = abs_record(w, &Some(rec.clone()));
+                                w.netreads.push(json!({"node": i + 1, "a": a, "from": j + 1, "c": c}));
+                                let _ = sender.send(Ok(rec));
+                            }
+                            None => drop(sender), // the read fails
+                        }
+                    }
                     _ => {}
                 }
             }
@@ -285,6 +308,7 @@ fn expire_all(w: &mut World) -> usize {
 async fn step(w: &mut World, t: &mut Trace, s: &Value) {
     let ev = st(&s["ev"], "");
     w.sent_now.clear();
+    w.netreads.clear();
     match ev {
         "Update" => {
             let i = uz(&s["node"]) as usize - 1;
@@ -299,7 +323,8 @@ async fn step(w: &mut World, t: &mut Trace, s: &Value) {
         }
         "Interval" => {
             let i = uz(&s["node"]) as usize - 1;
-            w.nodes[i].driver.verif_reset_replication_timers();
+            // ten minutes pass (longer than every replication throttle): the real throttle state decides, nothing is reset
+            w.nodes[i].driver.verif_age_replication_timers(600);
             let _ = w.nodes[i].driver.verif_handle_local_cmd(LocalSwarmCmd::TriggerIntervalReplication);
             collect(w).await;
             let snap = snapshot(w);
@@ -315,14 +340,14 @@ async fn step(w: &mut World, t: &mut Trace, s: &Value) {
                     if ev == "Deliver" {
                         let desc = deliver(w, idx).await;
                         let snap = snapshot(w);
-                        t.emit(json!({"ev":"Deliver","m":desc,"sent":w.sent_now,"state":snap}));
+                        t.emit(json!({"ev":"Deliver","m":desc,"sent":w.sent_now,"netreads":w.netreads,"state":snap}));
                     } else {
                         let m = w.msgs.remove(idx);
                         let desc = msg_abs(w, &m);
                         drop(m); // a lost request / answer: the waiting fetch task gets an error
                         collect(w).await;
                         let snap = snapshot(w);
-                        t.emit(json!({"ev":"Drop","m":desc,"sent":w.sent_now,"state":snap}));
+                        t.emit(json!({"ev":"Drop","m":desc,"sent":w.sent_now,"netreads":w.netreads,"state":snap}));
                     }
                 }
             }
@@ -343,9 +368,11 @@ async fn step(w: &mut World, t: &mut Trace, s: &Value) {
         }
         "Settle" => {
             let lost = w.msgs.len();
-            w.msgs.clear(); // every message still in flight is lost
+            w.settling = true; // every message still in flight is lost, and so are the network-wide reads that follow
+            w.msgs.clear();
             collect(w).await;
             w.msgs.clear();
+            w.settling = false;
             let expired = expire_all(w);
             let snap = snapshot(w);
             t.emit(json!({"ev":"Settle","lost":lost,"expired":expired,"sent":[],"state":snap}));
@@ -380,7 +407,7 @@ async fn run() {
             }
         }
         let na = fams.len();
-        let mut w = World { nodes, run: run_no, fams: fams.clone(), keys: vec![None; na], op_ids: HashMap::new(), pad_contents: HashMap::new(), types: HashMap::new(), msgs: vec![], next_id: 1, sent_now: vec![] };
+        let mut w = World { nodes, run: run_no, fams: fams.clone(), keys: vec![None; na], op_ids: HashMap::new(), pad_contents: HashMap::new(), types: HashMap::new(), msgs: vec![], next_id: 1, sent_now: vec![], netserve: scn["netserve"].as_bool().unwrap_or(false), settling: false, netreads: vec![] };
         t.emit(json!({"ev":"Reset","run":run_no,"nodes":nn,"fams":fams}));
         for s in scn["steps"].as_array().expect("steps") {
             step(&mut w, &mut t, s).await;
